@@ -550,7 +550,7 @@ def replay_states(inputs):
             from pymatgen.core import Structure
             traj = Trajectory(species=traj.species, coords=traj.positions, lattice=M, time_step=1e-15, metadata={'temperature': 300})
             sites = Structure(Lattice(M), ['Li'] * len(sites), sites.frac_coords, labels=sites.labels)
-    lat = traj.get_lattice()
+    lat = __import__('pymatgen.core', fromlist=['Lattice']).Lattice(__import__('numpy').array(traj.lattice, dtype=float).reshape(3, 3))  # the raw cell the trajectory was built with, not the library's get_lattice()
     diff = traj.filter('Li')
     labels = list(sites.labels)
     f = float(inputs.get('inner_fraction', 1.0))
